@@ -3,7 +3,9 @@
 //! two runs, either the token list or the located error.
 //!
 //! input : `{"k":"lex","bytes":[b0,b1,...]}` or `{"k":"lex","hex":"6162.."}`;
-//!         optional `"values": false` omits token values (kinds and spans only).
+//!         optional `"values": false` omits token values (kinds and spans only);
+//!         optional `"compact": true` writes every token as the array
+//!         `[kind, start, end]` or `[kind, start, end, value]` instead of an object.
 //! output: `{"len":N, "all": R, "nows": R}` where `R` is either
 //!         `{"tokens":[{"kind":K,"value":V,"start":S,"end":E}, ...]}` or
 //!         `{"error":{"kind":K,"start":S,"end":E}}`.
@@ -54,7 +56,7 @@ fn code_points(s: &str) -> J {
     J::Array(s.chars().map(|c| json!(u32::from(c))).collect())
 }
 
-fn lex_once(input: &[u8], with_ws: bool, values: bool) -> J {
+fn lex_once(input: &[u8], with_ws: bool, values: bool, compact: bool) -> J {
     let arena = Arena::new();
     let ast_arena = Arena::new();
     let interner = StrInterner::new();
@@ -80,16 +82,22 @@ fn lex_once(input: &[u8], with_ws: bool, values: bool) -> J {
                     TokenKind::String(s) => ("String".into(), Some(code_points(s))),
                     TokenKind::TextBlock(s) => ("TextBlock".into(), Some(code_points(s))),
                 };
-                let mut t = json!({"kind": kind, "start": start, "end": end});
-                if values {
+                let value = if values { value } else { None };
+                if ctx != span_ctx {
+                    // never expected: reported in the long form so that the check sees it
+                    out.push(json!({"kind": kind, "start": start, "end": end, "ctx": false}));
+                } else if compact {
+                    out.push(match value {
+                        Some(v) => json!([kind, start, end, v]),
+                        None => json!([kind, start, end]),
+                    });
+                } else {
+                    let mut t = json!({"kind": kind, "start": start, "end": end});
                     if let Some(v) = value {
                         t["value"] = v;
                     }
+                    out.push(t);
                 }
-                if ctx != span_ctx {
-                    t["ctx"] = json!(false);
-                }
-                out.push(t);
             }
             json!({"tokens": out})
         }
@@ -144,7 +152,8 @@ pub fn run(case: &J) -> J {
         Err(e) => return json!({"tool_error": e}),
     };
     let values = case.get("values").and_then(|v| v.as_bool()).unwrap_or(true);
-    let all = lex_once(&input, true, values);
-    let nows = lex_once(&input, false, values);
+    let compact = case.get("compact").and_then(|v| v.as_bool()).unwrap_or(false);
+    let all = lex_once(&input, true, values, compact);
+    let nows = lex_once(&input, false, values, compact);
     json!({"len": input.len(), "all": all, "nows": nows})
 }
